@@ -174,7 +174,7 @@ class Source:
 
     # ---------------------------------------------------------------- lookups
     def func(self, key: str) -> FuncInfo:
-        relfile, qn = key.split("::")
+        relfile, qn = key.split("#")[0].split("::")
         mi = self.module(relfile)
         if qn not in mi.funcs:
             raise ContractMismatch(f"function {key} not found in current source")
